@@ -40,6 +40,9 @@ type env struct {
 	vals     []string
 	capHit   bool
 	typeBad  bool
+	bad      string // set by the host function check(ok, msg) / again(v)
+	againIdx int
+	extra    map[string]rt.Value
 	arg      rt.Value
 	arg2     rt.Value
 	asg      rt.Value
@@ -71,12 +74,116 @@ func newEnv() *env {
 		e.vals = append(e.vals, hlib.Enc(v))
 		return c.Next(), nil
 	}, 2, false)
+	r.SetEnvGoFunc(r.GlobalEnv(), "check", func(t *rt.Thread, c *rt.GoCont) (rt.Cont, error) {
+		if !rt.Truth(c.Arg(0)) && e.bad == "" {
+			msg, _ := c.Arg(1).TryString()
+			e.bad = strings.ReplaceAll(msg, " ", "-")
+		}
+		return c.Next(), nil
+	}, 2, false)
+	r.SetEnvGoFunc(r.GlobalEnv(), "again", func(t *rt.Thread, c *rt.GoCont) (rt.Cont, error) {
+		// the k-th closure created in the loop must still see the k-th value of the loop variable
+		if e.againIdx >= len(e.vals) || hlib.Enc(c.Arg(0)) != e.vals[e.againIdx] {
+			if e.bad == "" {
+				e.bad = "closure-" + strconv.Itoa(e.againIdx+1) + "-sees-" + hlib.Enc(c.Arg(0))
+			}
+		}
+		e.againIdx++
+		return c.Next(), nil
+	}, 1, false)
+	e.extra = map[string]rt.Value{}
+	for name, src := range extraModes {
+		e.extra[name] = e.compile(extraPrelude + src)
+	}
 	e.arg = e.compile("return function(a, b, c) for i = a, b, c do emit(i, math.type(i)) end end")
 	e.arg2 = e.compile("return function(a, b) for i = a, b do emit(i, math.type(i)) end end")
 	e.asg = e.compile("return function(a, b, c) for i = a, b, c do emit(i, math.type(i)) i = i * 2 + 100 i = nil local i = 5 i = i + 1 end end")
 	e.tonumber = e.compile("return tonumber")
 	return e
 }
+
+// "evaluates its three expressions once": the three control expressions in every shape a Lua program can
+// give them; whatever the body does to the variables / fields / functions they came from, the loop must
+// run exactly as with plain values, each expression must be evaluated exactly once (in order), and the
+// loop must not write to the places the values came from.
+const extraPrelude = `
+local function same(x, y)
+  return type(x) == type(y) and math.type(x) == math.type(y) and (x == y or (x ~= x and y ~= y))
+end
+local function far(d) if (tonumber(d) or 1) > 0 then return math.huge else return -math.huge end end
+`
+
+var extraModes = map[string]string{
+	// locals reassigned by the body: to numbers that would change the iteration, to nil, to strings
+	"locnum": `return function(a, b, c)
+  local s, l, d = a, b, c
+  for i = s, l, d do emit(i, math.type(i)) s = -7 l = far(d) d = (tonumber(d) or 1) * 2 end
+end`,
+	"locnil": `return function(a, b, c)
+  local s, l, d = a, b, c
+  for i = s, l, d do emit(i, math.type(i)) s, l, d = nil, nil, nil end
+end`,
+	"locstr": `return function(a, b, c)
+  local s, l, d = a, b, c
+  for i = s, l, d do emit(i, math.type(i)) s, l, d = "x", "y", "z" end
+end`,
+	// upvalues modified by a function called in the body
+	"upval": `return function(a, b, c)
+  local s, l, d = a, b, c
+  local function bump() s = nil l = far(d) d = 1e300 end
+  for i = s, l, d do emit(i, math.type(i)) bump() end
+end`,
+	// globals
+	"global": `return function(a, b, c)
+  GS, GL, GD = a, b, c
+  for i = GS, GL, GD do emit(i, math.type(i)) GS, GL, GD = nil, far(c), 0 end
+  GS, GL, GD = nil, nil, nil
+end`,
+	// a call, a table field read through __index, a call: each exactly once, in order
+	"once": `return function(a, b, c)
+  local order = ""
+  local t = setmetatable({}, {__index = function(_, k) order = order .. "2" return b end})
+  local function f() order = order .. "1" return a end
+  local function g() order = order .. "3" return c end
+  for i = f(), t.n, g() do emit(i, math.type(i)) t.n = nil end
+  check(order == "123", "control expressions evaluated in order " .. order)
+end`,
+	// the loop must not write to the variables its control values came from (type and value intact)
+	"keep": `return function(a, b, c)
+  local s, l, d = a, b, c
+  for i = s, l, d do emit(i, math.type(i)) end
+  check(same(s, a), "initial value variable changed to " .. tostring(s) .. ":" .. tostring(math.type(s) or type(s)))
+  check(same(l, b), "limit variable changed to " .. tostring(l) .. ":" .. tostring(math.type(l) or type(l)))
+  check(same(d, c), "step variable changed to " .. tostring(d) .. ":" .. tostring(math.type(d) or type(d)))
+end`,
+	// a fresh loop variable per iteration: closures created in the body keep their own value
+	"clos": `return function(a, b, c)
+  local fs = {}
+  for i = a, b, c do emit(i, math.type(i)) fs[#fs + 1] = function() return i end end
+  for k = 1, #fs do again(fs[k]()) end
+end`,
+	// every control expression is ONE value: calls returning several values are cut, also the last one
+	"trunc": `return function(a, b, c)
+  local function pair(x, y) return x, y end
+  for i = pair(a, 5), pair(b, 6), pair(c, 7) do emit(i, math.type(i)) end
+end`,
+	// a break in the body, then the same loop again: the hidden registers are fresh each time
+	"rerun": `return function(a, b, c)
+  for i = a, b, c do emit(i, math.type(i)) break end
+  local n = 0
+  for i = a, b, c do n = n + 1 if n > 1 then emit(i, math.type(i)) end end
+end`,
+	// the loop state survives a yield in every iteration
+	"coyield": `return function(a, b, c)
+  local co = coroutine.wrap(function()
+    for i = a, b, c do emit(i, math.type(i)) coroutine.yield(i) end
+    return "done"
+  end)
+  while co() ~= "done" do end
+end`,
+}
+
+var extraOrder = []string{"locnum", "locnil", "locstr", "upval", "global", "once", "keep", "clos", "trunc", "rerun", "coyield"}
 
 func (e *env) compile(src string) rt.Value {
 	c, err := hlib.Load(e.r, "c16", src)
@@ -109,6 +216,8 @@ func (e *env) finish(class string) string {
 	switch {
 	case class == hlib.PANIC || class == hlib.KILLED:
 		status = "P"
+	case e.bad != "":
+		status = "X:" + e.bad
 	case e.typeBad:
 		status = "T"
 	case e.capHit:
@@ -127,6 +236,8 @@ func (e *env) reset() {
 	e.vals = e.vals[:0]
 	e.capHit = false
 	e.typeBad = false
+	e.bad = ""
+	e.againIdx = 0
 }
 
 func (e *env) runArgs(mode string, a, b, c rt.Value) {
@@ -141,6 +252,13 @@ func (e *env) runArgs(mode string, a, b, c rt.Value) {
 		class, _, _ = hlib.PCall(e.r, e.arg2, a, b)
 		hlib.Emit(mode, e.enc(a), e.enc(b), "-", "=", e.finish(class))
 		return
+	default:
+		f, ok := e.extra[mode]
+		if !ok {
+			fmt.Fprintln(os.Stderr, "unknown mode", mode)
+			os.Exit(2)
+		}
+		class, _, _ = hlib.PCall(e.r, f, a, b, c)
 	}
 	hlib.Emit(mode, e.enc(a), e.enc(b), e.enc(c), "=", e.finish(class))
 }
@@ -348,12 +466,29 @@ func main() {
 				}
 			}
 		}
+		// the control expressions in every syntactic shape ("evaluates its three expressions once")
+		shapes := []rt.Value{iv(0), iv(1), iv(-1), iv(math.MaxInt64 - 1), fv(2.5), fv(math.Inf(1)),
+			fv(math.NaN()), sv("2"), rt.NilValue}
+		if thorough {
+			shapes = append(shapes, iv(3), fv(1), iv(-3), iv(math.MinInt64), fv(-1.5), fv(math.Ldexp(1, 63)), sv("0x10"), sv("1e1"), rt.BoolValue(true))
+		}
+		for _, mode := range extraOrder {
+			for _, a := range shapes {
+				for _, b := range shapes {
+					for _, c := range shapes {
+						e.runArgs(mode, a, b, c)
+					}
+				}
+			}
+		}
 	case "random":
 		n, _ := strconv.Atoi(os.Args[2])
 		rng := hlib.NewRng(hlib.Seed())
 		for i := 0; i < n; i++ {
 			a, b, c := randTriple(rng)
-			switch rng.Below(8) {
+			switch rng.Below(12) {
+			case 8, 9, 10, 11:
+				e.runArgs(extraOrder[rng.Below(len(extraOrder))], a, b, c)
 			case 0:
 				e.runArgs("asg", a, b, c)
 			case 1:
